@@ -42,6 +42,7 @@ import (
 	"time"
 
 	"github.com/google/pprof/driver"
+	"github.com/google/pprof/internal/transport"
 	"github.com/google/pprof/profile"
 )
 
@@ -69,7 +70,7 @@ var c16FailKinds = []string{c16Err, c16Missing, c16GarbageFile, c16Invalid, c16I
 var c16OKKinds = []string{c16OK, c16OK, c16OK, c16OKFile, c16OKHTTP, c16OKEmpty}
 var c16CLIFail = []string{c16Missing, c16GarbageFile, c16InvalidFile}
 
-func c16Succeeds(kind string) bool { return strings.HasPrefix(kind, "ok") }
+func c16Succeeds(kind string) bool { return strings.HasPrefix(kind, "ok") || c16RealSucceeds(kind) }
 func c16IsHTTP(kind string) bool   { return kind == c16OKHTTP || strings.HasPrefix(kind, "http-") }
 
 type c16Src struct {
@@ -86,6 +87,9 @@ type c16Case struct {
 	AltKinds  []string `json:"alt_kinds,omitempty"` // other way of failing for failing sources ("" = same); run under Schedules[0]
 	Text      bool     `json:"text,omitempty"`      // also check -traces and -top
 	CLI       bool     `json:"cli,omitempty"`       // run through the pprof binary (file kinds only)
+	Real      bool     `json:"real_transport,omitempty"` // URL sources go through the production internal/transport to local servers (c16_tls.go)
+	UseCA     bool     `json:"use_ca,omitempty"`         // pass server B's certificate with -tls_ca
+	Orders    [][]int  `json:"orders,omitempty"`         // Real: per run the rank at which each fetch (sources ++ bases) is released, one after the other
 }
 
 func (cs *c16Case) all() []c16Src { return append(append([]c16Src{}, cs.Sources...), cs.Bases...) }
@@ -98,6 +102,9 @@ func c16Token(group, id int) string {
 }
 
 func c16Addr(dir string, group, id int, kind string) string {
+	if c16IsReal(kind) && c16Srv != nil {
+		return c16Srv.addr(kind, c16Token(group, id))
+	}
 	if c16IsHTTP(kind) {
 		return "http://pproftest.local/" + c16Token(group, id)
 	}
@@ -286,6 +293,7 @@ type c16Slot struct {
 	group, id     int
 	src           c16Src
 	delay         time.Duration
+	rank          int // gated runs: position at which this fetch is released
 	fetches       int
 	finishes      int
 	startDone     int // completed fetches of its group when this fetch began
@@ -300,6 +308,7 @@ type c16Run struct {
 	maxActive  [2]int
 	completion [2][]int
 	unknown    int
+	gate       *c16Gate // non-nil: fetches are released one after the other by rank
 }
 
 func (r *c16Run) begin(s *c16Slot) {
@@ -353,6 +362,17 @@ func (r *c16Run) Fetch(src string, duration, timeout time.Duration) (*profile.Pr
 	r.begin(s)
 	if c16IsHTTP(s.src.Kind) {
 		return nil, "", nil // completion is recorded by the transport
+	}
+	if c16IsReal(s.src.Kind) {
+		if r.gate == nil { // default wiring, no wrapper: order by delay only
+			c16Sleep(s.delay)
+			r.finish(s)
+		}
+		return nil, "", nil // gated: the wrapper around the production transport waits and records
+	}
+	if r.gate != nil {
+		r.gate.wait(s.rank)
+		defer r.gate.release(s.rank)
 	}
 	c16Sleep(s.delay)
 	r.finish(s)
@@ -519,12 +539,26 @@ func c16Kinds(cs *c16Case, alt bool) []string {
 }
 
 func c16Exec(root string, cs *c16Case, kinds []string, delays []int, format, sampleIndex string) *c16Obs {
+	return c16ExecOrd(root, cs, kinds, delays, nil, format, sampleIndex)
+}
+
+// c16ExecOrd: order != nil ⇒ the fetches are released one after the other, fetch i at position order[i].
+func c16ExecOrd(root string, cs *c16Case, kinds []string, delays, order []int, format, sampleIndex string) *c16Obs {
 	dir, _ := os.MkdirTemp(root, "r")
 	defer os.RemoveAll(dir)
+	if cs.Real {
+		if srv := c16StartServers(root); srv.err != nil {
+			return &c16Obs{ErrCount: map[string]int{}, Panic: "harness: cannot start the local servers: " + srv.err.Error()}
+		}
+	}
 	c16WriteFiles(dir, cs, kinds)
 	n := len(cs.Sources)
 	run := &c16Run{byTok: map[string]*c16Slot{}}
 	obs := &c16Obs{ErrCount: map[string]int{}}
+	if order != nil {
+		run.gate = newC16Gate()
+	}
+	bodies := map[string][]byte{}
 	var args, bases []string
 	for i, s := range cs.all() {
 		g, id := 0, i
@@ -535,6 +569,12 @@ func c16Exec(root string, cs *c16Case, kinds []string, delays []int, format, sam
 		sl := &c16Slot{group: g, id: id, src: s}
 		if i < len(delays) {
 			sl.delay = time.Duration(delays[i]) * time.Microsecond
+		}
+		if i < len(order) {
+			sl.rank = order[i]
+		}
+		if c16IsReal(s.Kind) && s.Kind != c16RealHTTP404 {
+			bodies[c16Token(g, id)] = c16Bytes(c16ProfileOf(g, id, s))
 		}
 		run.byTok[c16Token(g, id)] = sl
 		obs.Slots = append(obs.Slots, sl)
@@ -555,6 +595,20 @@ func c16Exec(root string, cs *c16Case, kinds []string, delays []int, format, sam
 	ui := &c16UI{}
 	w := &c16Writer{bufs: map[string]*bytes.Buffer{}}
 	o := &driver.Options{Writer: w, Flagset: fl, Fetch: run, Sym: c16Sym{}, Obj: c16Obj{}, UI: ui, HTTPTransport: run}
+	if cs.Real {
+		srv := c16StartServers(root)
+		srv.setBodies(bodies)
+		if cs.UseCA {
+			fl.strs["tls_ca"] = srv.caFile
+		}
+		if order != nil {
+			// the production transport, created from the flag set as driver.setDefaults does,
+			// behind a wrapper that only decides when a request may start
+			o.HTTPTransport = &c16GateRT{run: run, inner: transport.New(fl)}
+		} else {
+			o.HTTPTransport = nil // the driver's own default wiring
+		}
+	}
 	done := make(chan struct{})
 	go func() {
 		defer close(done)
@@ -908,7 +962,17 @@ func (k *c16Checker) model(cs *c16Case, label string, kinds []string, obs *c16Ob
 	for j := 0; j < m; j++ {
 		bb = append(bb, bit(kinds[n+j]))
 	}
-	req := strings.Join(strings.Fields(fmt.Sprintf("fetch.model 0 %d %s %s %d %s %s", n, strings.Join(sb, " "), c16Ints(obs.Completion[0]),
+	op := "fetch.model"
+	if cs.Real { // the model's scheme/trust table decides which sources can be fetched
+		op = "fetch.descs"
+		for i := 0; i < n; i++ {
+			sb[i] = c16Desc(kinds[i], cs.UseCA)
+		}
+		for j := 0; j < m; j++ {
+			bb[j] = c16Desc(kinds[n+j], cs.UseCA)
+		}
+	}
+	req := strings.Join(strings.Fields(fmt.Sprintf("%s 0 %d %s %s %d %s %s", op, n, strings.Join(sb, " "), c16Ints(obs.Completion[0]),
 		m, strings.Join(bb, " "), c16Ints(obs.Completion[1]))), " ")
 	rep := c.Drv.Ask(req)
 	c.Res.ModelCompared++
@@ -1056,14 +1120,28 @@ func (k *c16Checker) runCase(cs *c16Case) {
 	kinds := c16Kinds(cs, false)
 	exp := c16Expected(cs, kinds)
 	var outs [][]byte
+	var labels []string
 	var verdicts []bool
 	var errsets []string
 	orders := map[string]bool{}
 	nonIndexOrder := false
 	good := true
+	type runSpec struct {
+		label         string
+		delays, order []int
+	}
+	var specs []runSpec
+	for oi, ord := range cs.Orders {
+		if cs.Real {
+			specs = append(specs, runSpec{fmt.Sprintf("order#%d", oi), nil, ord})
+		}
+	}
 	for si, sched := range cs.Schedules {
-		obs := c16Exec(k.root, cs, kinds, sched, "proto", "allocs")
-		label := fmt.Sprintf("schedule#%d", si)
+		specs = append(specs, runSpec{fmt.Sprintf("schedule#%d", si), sched, nil})
+	}
+	for _, sp := range specs {
+		obs := c16ExecOrd(k.root, cs, kinds, sp.delays, sp.order, "proto", "allocs")
+		label := sp.label
 		if !k.check(cs, label, kinds, exp, obs, "proto", 0) {
 			good = false
 		}
@@ -1072,6 +1150,7 @@ func (k *c16Checker) runCase(cs *c16Case) {
 			return
 		}
 		outs = append(outs, obs.Out)
+		labels = append(labels, label)
 		verdicts = append(verdicts, obs.Failed)
 		var es []string
 		for t, cnt := range obs.ErrCount {
@@ -1097,14 +1176,14 @@ func (k *c16Checker) runCase(cs *c16Case) {
 	// timing independence: byte-identical report, same verdict, same error lines under every schedule
 	for i := 1; i < len(outs); i++ {
 		if verdicts[i] != verdicts[0] {
-			c.Violation("C16/schedule/verdict-differs", fmt.Sprintf("[%s] schedule#0 failed=%v, schedule#%d failed=%v", cs.Name, verdicts[0], i, verdicts[i]), cs)
+			c.Violation("C16/schedule/verdict-differs", fmt.Sprintf("[%s] %s failed=%v, %s failed=%v", cs.Name, labels[0], verdicts[0], labels[i], verdicts[i]), cs)
 			good = false
 		} else if !bytes.Equal(outs[i], outs[0]) {
-			c.Violation("C16/schedule/report-differs", fmt.Sprintf("[%s] the -proto report under schedule#%d differs from the one under schedule#0 (%d vs %d bytes)", cs.Name, i, len(outs[i]), len(outs[0])), cs)
+			c.Violation("C16/schedule/report-differs", fmt.Sprintf("[%s] the -proto report under %s differs from the one under %s (%d vs %d bytes)", cs.Name, labels[i], labels[0], len(outs[i]), len(outs[0])), cs)
 			good = false
 		}
 		if errsets[i] != errsets[0] {
-			c.Violation("C16/schedule/error-lines-differ", fmt.Sprintf("[%s] error lines under schedule#%d: %s; under schedule#0: %s", cs.Name, i, trunc16(errsets[i]), trunc16(errsets[0])), cs)
+			c.Violation("C16/schedule/error-lines-differ", fmt.Sprintf("[%s] error lines under %s: %s; under %s: %s", cs.Name, labels[i], trunc16(errsets[i]), labels[0], trunc16(errsets[0])), cs)
 			good = false
 		}
 	}
@@ -1141,7 +1220,13 @@ func (k *c16Checker) runCase(cs *c16Case) {
 	// bookkeeping
 	nf := exp.NFail[0] + exp.NFail[1]
 	nontrivial := n+m >= 2 && nf >= 1 && len(exp.OkSrc)+len(exp.OkBase) >= 1 && nonIndexOrder && len(orders) >= 2
-	canon := fmt.Sprintf("%v|%v|%v", kinds, cs.DiffBase, cs.Schedules)
+	canon := fmt.Sprintf("%v|%v|%v|%v|%v", kinds, cs.DiffBase, cs.Schedules, cs.Orders, cs.UseCA)
+	if cs.Real {
+		c.Res.Hit("real-transport-cases")
+		if cs.UseCA {
+			c.Res.Hit("real-transport-with-tls_ca")
+		}
+	}
 	c.Res.Count(canon, nontrivial)
 	c.Res.Hit("sources-" + c16Bucket(n))
 	if m > 0 {
@@ -1419,7 +1504,7 @@ func runC16(c *Ctx) {
 }
 
 func c16Worker(c *Ctx) {
-	c.Res.Rule = "cases: 1…300 sources (all sizes 1-8 with every outcome vector and EVERY completion order for n=3, sizes around the 127/128/129 and 255/256/257 chunk boundaries, random sizes) × 0…130 -base/-diff_base sources, each source independently a valid profile (from the Fetcher plug-in, a file, or an HTTP body), or failing (Fetcher error, missing file, garbage file/body, invalid profile, HTTP 500, transport error); each case runs the real driver.PProf under ≥3 PRNG-derived delay schedules (random, reverse, failures-first) and with the failing sources failing differently. non-trivial = ≥2 sources, at least one success and one failure, an observed completion order that is not the command-line order and ≥2 distinct observed completion orders."
+	c.Res.Rule = "cases: 1…300 sources (all sizes 1-8 with every outcome vector and EVERY completion order for n=3, sizes around the 127/128/129 and 255/256/257 chunk boundaries, random sizes) × 0…130 -base/-diff_base sources, each source independently a valid profile (from the Fetcher plug-in, a file, or an HTTP body), or failing (Fetcher error, missing file, garbage file/body, invalid profile, HTTP 500, transport error); a stream of 2…8 sources (+ bases) mixing https:// (untrusted server: must fail; server trusted through -tls_ca: must succeed), https+insecure://, http:// and file/plug-in sources fetched through the PRODUCTION internal/transport against servers on 127.0.0.1, released one after the other in PRNG permutations, all-insecure-first and all-strict-first orders, plus one delay-scheduled run through the driver's default transport wiring; each case runs the real driver.PProf under ≥3 PRNG-derived delay schedules (random, reverse, failures-first) and with the failing sources failing differently. non-trivial = ≥2 sources, at least one success and one failure, an observed completion order that is not the command-line order and ≥2 distinct observed completion orders."
 	root, err := os.MkdirTemp("", "pvc16-")
 	if err != nil {
 		c.Res.HarnessError = "cannot create scratch directory: " + err.Error()
@@ -1506,6 +1591,10 @@ func c16Worker(c *Ctx) {
 			cs.Schedules = append(cs.Schedules, c16Sched(rank))
 		}
 		k.runCase(cs)
+	}
+	// (1b) URL sources through the production transport to local TLS / http servers, forced orders
+	for i := 0; i < 8*c.Scale; i++ {
+		k.runCase(c16GenReal(r.Fork(), i))
 	}
 	// (2) sizes 1…8, with and without bases
 	for n := 1; n <= 8; n++ {
